@@ -49,8 +49,33 @@ type spec struct {
 	date     int64
 	plain    *string
 	html     *string
+	penc     string     // per-part encoding of the plain part ("" = the message's)
+	henc     string     // per-part encoding of the html part
+	extra    []partSpec // further alternatives, in order
 	atts     []fileSpec
 	embs     []fileSpec
+}
+
+// partSpec: one further alternative part
+type partSpec struct {
+	html    bool
+	content string
+	enc     string
+}
+
+func withEnc(h, enc string) string {
+	if enc == "" {
+		return h
+	}
+	return h + "@" + hx.Hex([]byte(enc))
+}
+
+func splitEnc(a string) (string, string) {
+	h, e, has := strings.Cut(a, "@")
+	if !has {
+		return h, ""
+	}
+	return h, string(hx.UnHex(e))
 }
 
 func optHex(s *string) string {
@@ -93,15 +118,37 @@ func filesUnhex(s string) []fileSpec {
 
 func (s spec) args() []string {
 	return []string{hx.Hex([]byte(s.enc)), hx.Hex([]byte(s.subject)), hx.Hex([]byte(s.fromName)), strconv.Itoa(s.nTo), strconv.Itoa(s.nCc),
-		strconv.FormatInt(s.date, 10), optHex(s.plain), optHex(s.html), filesHex(s.atts), filesHex(s.embs)}
+		strconv.FormatInt(s.date, 10), withEnc(optHex(s.plain), s.penc), s.htmlArg(), filesHex(s.atts), filesHex(s.embs)}
+}
+
+// htmlArg: "<html|->[@enc]" followed by "+p:<content>[@enc]" / "+h:<content>[@enc]" per further alternative
+func (s spec) htmlArg() string {
+	out := withEnc(optHex(s.html), s.henc)
+	for _, e := range s.extra {
+		t := "p"
+		if e.html {
+			t = "h"
+		}
+		out += "+" + t + ":" + withEnc(hx.Hex([]byte(e.content)), e.enc)
+	}
+	return out
 }
 
 func specOf(a []string) spec {
 	nTo, _ := strconv.Atoi(a[3])
 	nCc, _ := strconv.Atoi(a[4])
 	d, _ := strconv.ParseInt(a[5], 10, 64)
-	return spec{enc: string(hx.UnHex(a[0])), subject: string(hx.UnHex(a[1])), fromName: string(hx.UnHex(a[2])), nTo: nTo, nCc: nCc, date: d,
-		plain: optUnhex(a[6]), html: optUnhex(a[7]), atts: filesUnhex(a[8]), embs: filesUnhex(a[9])}
+	ph, penc := splitEnc(a[6])
+	hparts := strings.Split(a[7], "+")
+	hh, henc := splitEnc(hparts[0])
+	sp := spec{enc: string(hx.UnHex(a[0])), subject: string(hx.UnHex(a[1])), fromName: string(hx.UnHex(a[2])), nTo: nTo, nCc: nCc, date: d,
+		plain: optUnhex(ph), html: optUnhex(hh), penc: penc, henc: henc, atts: filesUnhex(a[8]), embs: filesUnhex(a[9])}
+	for _, e := range hparts[1:] {
+		t, rest, _ := strings.Cut(e, ":")
+		c, enc := splitEnc(rest)
+		sp.extra = append(sp.extra, partSpec{html: t == "h", content: string(hx.UnHex(c)), enc: enc})
+	}
+	return sp
 }
 
 func (s spec) shape() string {
@@ -112,7 +159,7 @@ func (s spec) shape() string {
 	if len(s.embs) > 0 {
 		p = append(p, "related")
 	}
-	if s.plain != nil && s.html != nil {
+	if n := len(s.expectedParts()); n > 1 {
 		p = append(p, "alt")
 	}
 	if len(p) == 0 {
@@ -141,13 +188,16 @@ func (s spec) build() (*mail.Msg, error) {
 	m.Subject(s.subject)
 	m.SetDateWithValue(time.Unix(s.date, 0).UTC())
 	m.SetMessageIDWithValue("fixed.id@x.test")
-	if s.plain != nil {
-		m.SetBodyString(mail.TypeTextPlain, *s.plain)
-		if s.html != nil {
-			m.AddAlternativeString(mail.TypeTextHTML, *s.html)
+	for i, p := range s.expectedParts() {
+		var opts []mail.PartOption
+		if p.enc != "" {
+			opts = append(opts, mail.WithPartEncoding(mail.Encoding(p.enc)))
 		}
-	} else if s.html != nil {
-		m.SetBodyString(mail.TypeTextHTML, *s.html)
+		if i == 0 {
+			m.SetBodyString(mail.ContentType(p.ctype), p.content, opts...)
+		} else {
+			m.AddAlternativeString(mail.ContentType(p.ctype), p.content, opts...)
+		}
 	}
 	for _, f := range s.atts {
 		if err := m.AttachReader(f.name, bytes.NewReader(f.content)); err != nil {
@@ -311,15 +361,32 @@ func readMIME(raw []byte) (hdr netmail.Header, leaves []leaf, structure []string
 // text comparison: the writer terminates the last line of a part; the readers see the CRLF that
 // belongs to the multipart delimiter as not part of the body.  Bodies in the generated specs end
 // without a line break, so equality is exact.
-func (s spec) expectedParts() [][2]string {
-	var out [][2]string
+type expPart struct{ ctype, content, enc string } // enc: the per-part option ("" = none)
+
+func (s spec) expectedParts() []expPart {
+	var out []expPart
 	if s.plain != nil {
-		out = append(out, [2]string{"text/plain", *s.plain})
+		out = append(out, expPart{"text/plain", *s.plain, s.penc})
 	}
 	if s.html != nil {
-		out = append(out, [2]string{"text/html", *s.html})
+		out = append(out, expPart{"text/html", *s.html, s.henc})
+	}
+	for _, e := range s.extra {
+		t := "text/plain"
+		if e.html {
+			t = "text/html"
+		}
+		out = append(out, expPart{t, e.content, e.enc})
 	}
 	return out
+}
+
+// effEnc: the transfer encoding the part is rendered with
+func (s spec) effEnc(p expPart) string {
+	if p.enc != "" {
+		return p.enc
+	}
+	return s.enc
 }
 
 func nameClass(name string) string {
@@ -415,16 +482,16 @@ func (s spec) checkParsed(r *hx.Run, id string, m2 *mail.Msg) {
 	for i := 0; i < len(exp) && i < len(parts); i++ {
 		p := parts[i]
 		c, err := p.GetContent()
-		if string(p.GetContentType()) != exp[i][0] {
-			r.Fail(id, "part-type-mismatch", fmt.Sprintf("part %d type %q parsed back as %q", i, exp[i][0], p.GetContentType()))
+		if string(p.GetContentType()) != exp[i].ctype {
+			r.Fail(id, "part-type-mismatch", fmt.Sprintf("part %d type %q parsed back as %q", i, exp[i].ctype, p.GetContentType()))
 		} else if !strings.EqualFold(string(p.GetCharset()), "UTF-8") {
 			r.Fail(id, "part-charset-mismatch", fmt.Sprintf("part %d charset parsed back as %q", i, p.GetCharset()))
-		} else if err != nil || string(c) != exp[i][1] {
-			cls := "part-content-mismatch-" + s.enc
-			if s.enc == "7bit" {
+		} else if err != nil || string(c) != exp[i].content {
+			cls := "part-content-mismatch-" + s.effEnc(exp[i])
+			if s.effEnc(exp[i]) == "7bit" {
 				cls = "7bit-requoted"
 			}
-			r.Fail(id, cls, fmt.Sprintf("part %d (%s, %s) content %.60q parsed back as %.60q (err %v)", i, exp[i][0], s.enc, exp[i][1], c, err))
+			r.Fail(id, cls, fmt.Sprintf("part %d (%s, %s) content %.60q parsed back as %.60q (err %v)", i, exp[i].ctype, s.effEnc(exp[i]), exp[i].content, c, err))
 		}
 	}
 	// files
@@ -524,14 +591,14 @@ func (s spec) checkRerender(r *hx.Run, id string, r2 []byte) {
 	}
 	for i := 0; i < len(exp) && i < len(texts); i++ {
 		l := texts[i]
-		if l.ctype != exp[i][0] || !strings.EqualFold(l.charset, "UTF-8") {
+		if l.ctype != exp[i].ctype || !strings.EqualFold(l.charset, "UTF-8") {
 			r.Fail(id, "rerender-part-type-mismatch", fmt.Sprintf("part %d re-rendered as %s; charset=%s", i, l.ctype, l.charset))
-		} else if string(l.content) != exp[i][1] {
-			cls := "rerender-content-mismatch-" + s.enc
-			if s.enc == "7bit" {
+		} else if string(l.content) != exp[i].content {
+			cls := "rerender-content-mismatch-" + s.effEnc(exp[i])
+			if s.effEnc(exp[i]) == "7bit" {
 				cls = "7bit-requoted"
 			}
-			r.Fail(id, cls, fmt.Sprintf("part %d (%s, %s) content %.60q re-rendered as %.60q", i, exp[i][0], s.enc, exp[i][1], l.content))
+			r.Fail(id, cls, fmt.Sprintf("part %d (%s, %s) content %.60q re-rendered as %.60q", i, exp[i].ctype, s.effEnc(exp[i]), exp[i].content, l.content))
 		}
 	}
 	chk := func(kind string, want []fileSpec, got []leaf) {
